@@ -23,7 +23,7 @@ Theorem inv_step_partial : forall s o, Inv s -> op_ok s o -> Inv (fst (step s o)
 Proof. exact Proofs_Step.inv_step. Qed.
 Print Assumptions inv_step_partial.
 
-Theorem inv_step_partial_covers : length covered_mutators = 33 /\ length all_mutators = 57.
+Theorem inv_step_partial_covers : length covered_mutators = 33 /\ length all_mutators = 59.
 Proof. exact Proofs_Witness.covered_count. Qed.
 Print Assumptions inv_step_partial_covers.
 
@@ -103,7 +103,7 @@ Theorem inv2_init : Inv2 init2.
 Proof. exact Proofs_RegInv.inv2_init. Qed.
 Print Assumptions inv2_init.
 
-(* every operation of the model (all 57 mutators of the alphabet, see inv2_step_covers_all) preserves
+(* every operation of the model (all 59 mutators of the alphabet, see inv2_step_covers_all) preserves
    the invariant of layers 1, 2 and 3; [op_ok2] adds to [op_ok] the same side condition for signals:
    an attach is not applied to a signal that already sits in another message / multiplexer (open
    finding D20; signal_exclusive_without_side_condition_refuted in C05.v) *)
